@@ -79,6 +79,10 @@ type model struct {
 	// this observation, so every due cleanup must have run.
 	justTicked bool
 
+	// C04: reference fairness model enabled, and its per-worker state.
+	fair bool
+	fw   map[int]*fairWorker
+
 	// per-stream bookkeeping
 	seenMsgs    map[int]int
 	streamOp    map[int]string
@@ -241,6 +245,7 @@ func (m *model) onSyncStart(wk *workerSim, res *syncResult, kind string) {
 	if m.prev == nil || res.req.CurrentState == nil {
 		return
 	}
+	m.fairOnSyncStart(wk, res)
 	for _, vw := range m.prev.Workers {
 		if vw.Key != workerKeyOf(wk) || vw.QueueName != m.queueNameOf(wk) || vw.CurrentTask == nil {
 			continue
@@ -417,6 +422,9 @@ func (m *model) observe() {
 			m.label("retry_on_largest")
 		}
 		if vt.Stage == remoteexecution.ExecutionStage_COMPLETED && t.final == nil {
+			if t.prevStage == remoteexecution.ExecutionStage_EXECUTING && !(t.acceptedCompletion != nil && t.acceptedStep == w.stepNo) {
+				m.fairOnNonWorkerCompletion(t.prevWorkerKey, t.prevQueue)
+			}
 			t.final = vt.ExecuteResponse
 			t.finalStep = w.stepNo
 			t.finalTime = now
@@ -472,6 +480,9 @@ func (m *model) observe() {
 					}
 				}
 				if !stillThere {
+					if t.prevStage == remoteexecution.ExecutionStage_EXECUTING {
+						m.fairOnNonWorkerCompletion(t.prevWorkerKey, t.prevQueue)
+					}
 					t.final = &remoteexecution.ExecuteResponse{Status: status.New(codes.Canceled, "gone").Proto()}
 					t.finalStep = w.stepNo
 					t.finalTime = now
@@ -796,6 +807,31 @@ func (m *model) observeSyncs(snap *scheduler.VerifSnapshot, now time.Time) {
 			t.attemptWorkers[akey][wk.idx] = true
 			if len(t.attemptWorkers[akey]) > 1 {
 				w.failf("C01: the %s attempt of task %s was handed to more than one worker: %v", kind, aid, t.attemptWorkers[akey])
+			}
+			if newAssignment && m.fair && m.prev != nil {
+				var pw *scheduler.VerifWorker
+				for _, x := range m.prev.Workers {
+					if x.Key == workerKeyOf(wk) && x.QueueName == m.queueNameOf(wk) {
+						pw = x
+					}
+				}
+				switch {
+				case pw != nil && pw.Blocked:
+					m.fairCheckHandOff(wk, vw.CurrentTask, now)
+				case (pw == nil || pw.CurrentTask == nil) && res.step == w.stepNo:
+					m.fairCheckPick(wk, vw.CurrentTask, now)
+				default:
+					// Completion and pick in one call: not validated;
+					// take the stickiness state from the scheduler.
+					m.label("fair_unvalidated_assignment")
+					fw := m.fairWorkerOf(wk)
+					for l := range fw.starts {
+						if l < len(vw.StickinessStart) {
+							fw.starts[l] = time.Unix(0, vw.StickinessStart[l])
+						}
+					}
+					fw.lastInv = nil
+				}
 			}
 			if newAssignment {
 				t.assigned = wk
